@@ -2,6 +2,7 @@
 
 from __future__ import annotations
 
+import copy
 import itertools
 
 from hypothesis import strategies as st
@@ -17,34 +18,79 @@ SHARDS = {"quick": 8, "thorough": 16}
 KINDS = ["for", "tablerow", "tablerow_cols", "include_for", "render_for", "include", "render", "macro"]
 REPEATING = {"for", "tablerow", "tablerow_cols", "include_for", "render_for"}
 ISOLATING = {"render_for", "render", "macro"}  # include is not allowed below these
-MARK = "ABCD"
+MARK = "ABCDEFGHIJKLMNOPQRSTUVWXYZ"
+COLLS = ["list", "range", "dict", "str"]
 
 
-def build(levels) -> tuple[str, dict, dict]:
-    """(main source, partials, data) for a nest; level i emits MARK[i] once per execution."""
+def chain(levels) -> list:
+    """The tree of a single nest given as a list of levels (the original case format)."""
+    nodes: list = []
+    cur = nodes
+    for lv in levels:
+        node = dict(lv, body=[])
+        cur.append(node)
+        cur = node["body"]
+    return nodes
+
+
+def number(tree) -> int:
+    """Give every node its preorder id; returns the number of nodes."""
+    cnt = 0
+
+    def walk(nodes):
+        nonlocal cnt
+        for n in nodes:
+            n["id"] = cnt
+            cnt += 1
+            walk(n.get("body") or [])
+
+    walk(tree)
+    return cnt
+
+
+def build(tree, strseq: bool = False) -> tuple[str, dict, dict]:
+    """(main source, partials, data) for a forest of nests; node i emits MARK[i] once per execution of its block."""
     partials: dict = {}
     data: dict = {}
 
-    def body(i: int) -> str:
-        if i >= len(levels):
-            return ""
-        lv = levels[i]
-        kind, n = lv["k"], lv["n"]
-        inner = MARK[i] + body(i + 1)
+    def coll(nd) -> str:
+        i, n, c = nd["id"], nd["n"], nd.get("coll", "list")
         arr = f"a{i}"
-        data[arr] = list(range(n))
+        if c == "range":
+            return f"(1..{n})" if n else "(1..0)"
+        if c == "dict":
+            data[arr] = {f"k{j}": j for j in range(n)}
+        elif c == "str":
+            # with string_sequences one item per character, without it one item for a non-empty string
+            data[arr] = "abcdefghijklmnopqrstuvwxyz"[: n] if strseq else ("s" * 7 if n else "")
+        else:
+            data[arr] = list(range(n))
+        return arr
+
+    def args(nd) -> str:
+        out = ""
+        if nd.get("off") is not None:
+            out += f" offset: {nd['off']}"
+        if nd.get("lim") is not None:
+            out += f" limit: {nd['lim']}"
+        return out
+
+    def seq(nodes) -> str:
+        return "".join(one(nd) for nd in nodes)
+
+    def one(nd) -> str:
+        i, kind = nd["id"], nd["k"]
+        inner = MARK[i] + seq(nd.get("body") or [])
         if kind == "for":
-            return "{% for x" + str(i) + " in " + arr + " %}" + inner + "{% endfor %}"
+            return "{% for x" + str(i) + " in " + coll(nd) + args(nd) + " %}" + inner + "{% endfor %}"
         if kind == "tablerow":
-            return "{% tablerow x" + str(i) + " in " + arr + " %}" + inner + "{% endtablerow %}"
+            return "{% tablerow x" + str(i) + " in " + coll(nd) + args(nd) + " %}" + inner + "{% endtablerow %}"
         if kind == "tablerow_cols":  # fewer columns than items: the iteration count is the length, not the column count
-            return "{% tablerow x" + str(i) + " in " + arr + " cols: 2 %}" + inner + "{% endtablerow %}"
-        if kind == "include_for":
+            return "{% tablerow x" + str(i) + " in " + coll(nd) + " cols: 2" + args(nd) + " %}" + inner + "{% endtablerow %}"
+        if kind in ("include_for", "render_for"):
             partials[f"p{i}"] = inner
-            return "{% include 'p" + str(i) + "' for " + arr + " %}"
-        if kind == "render_for":
-            partials[f"p{i}"] = inner
-            return "{% render 'p" + str(i) + "' for " + arr + " %}"
+            data[f"a{i}"] = list(range(nd["n"]))
+            return "{% " + kind.split("_")[0] + " 'p" + str(i) + "' for a" + str(i) + " %}"
         if kind == "include":
             partials[f"p{i}"] = inner
             return "{% include 'p" + str(i) + "' %}"
@@ -55,68 +101,131 @@ def build(levels) -> tuple[str, dict, dict]:
             return "{% macro m" + str(i) + " %}" + inner + "{% endmacro %}{% call m" + str(i) + " %}"
         raise core.HarnessError(kind)
 
-    return body(0), partials, data
+    return seq(tree), partials, data
 
 
-def length_of(lv) -> int:
-    return lv["n"] if lv["k"] in REPEATING else 1
+def length_of(nd, strseq: bool = True) -> int:
+    if nd["k"] not in REPEATING:
+        return 1
+    n = nd["n"]
+    if nd.get("coll") == "str" and not strseq:
+        n = min(n, 1)
+    if nd["k"] in ("for", "tablerow", "tablerow_cols"):
+        n = max(0, n - (nd.get("off") or 0))
+        if nd.get("lim") is not None:
+            n = min(n, max(0, nd["lim"]))
+    return n
 
 
 def evaluate(case) -> Verdict:
     v = Verdict()
-    levels, limit = case["levels"], case["limit"]
-    src, partials, data = build(levels)
-    env = envs.make_env({"mode": "strict", "extra": True, "twice": False, "limits": {"loop_iteration_limit": limit}}, partials)
+    tree = copy.deepcopy(case["tree"]) if "tree" in case else chain(case["levels"])
+    limit = case["limit"]
+    strseq = bool(case.get("strseq"))
+    if number(tree) > len(MARK):
+        v.labels.append("malformed")
+        return v
+    src, partials, data = build(tree, strseq)
+    env = envs.make_env(
+        {"mode": "strict", "extra": True, "twice": False, "limits": {"loop_iteration_limit": limit}, "flags": {"string_sequences": strseq}},
+        partials,
+    )
     o = oc.outcome_of(lambda: env.from_string(src).render(**data))
-    prods = []
-    p = 1
-    reachable = True
-    for lv in levels:
-        if not reachable:
-            break
-        p *= length_of(lv)
-        prods.append(p)
-        if p == 0:
-            reachable = False
-    over = [j for j, pj in enumerate(prods) if pj > limit]
-    shape = ">".join(lv["k"] for lv in levels)
+    # reference arithmetic: the product of lengths on the way down to every reachable node, in document order
+    expect: dict = {}
+    over: list = []
+    pairs: list = []
+    maxdepth = 0
+
+    def walk(nodes, mult, parent, depth):
+        nonlocal maxdepth
+        for nd in nodes:
+            maxdepth = max(maxdepth, depth)
+            p_ = mult * length_of(nd, strseq)
+            expect[nd["id"]] = p_
+            if parent is not None:
+                pairs.append(f"{parent['k']}>{nd['k']}")
+            if p_ > limit:
+                over.append((nd, parent, p_))
+            elif p_ > 0:
+                walk(nd.get("body") or [], p_, nd, depth + 1)
+
+    walk(tree, 1, None, 1)
+
+    def describe() -> str:
+        def d(nodes):
+            return "[" + " ".join(
+                f"{nd['k']}:{nd['n']}" + (f"/{nd['coll']}" if nd.get("coll", "list") != "list" else "")
+                + (f"/off{nd['off']}" if nd.get("off") is not None else "") + (f"/lim{nd['lim']}" if nd.get("lim") is not None else "")
+                + (d(nd["body"]) if nd.get("body") else "") for nd in nodes) + "]"
+        return d(tree)
+
+    shape = describe()
     if o[0] == "crash":
-        v.fail(f"crash:{o[1]}", f"{shape} lengths={[lv['n'] for lv in levels]} limit={limit}: {o[1]} at {o[2]}")
+        v.fail(f"crash:{o[1]}", f"{shape} limit={limit}: {o[1]} at {o[2]}")
     elif over:
-        j = over[0]
-        pair = f"{levels[j - 1]['k'] if j else 'top'}>{levels[j]['k']}"
+        nd, parent, p_ = over[0]
+        pair = f"{parent['k'] if parent else 'top'}>{nd['k']}"
+        if _is_sibling_before(tree, nd):
+            pair += ":after-sibling"
+        if nd.get("coll", "list") == "str":
+            pair += ":string"
         if o[0] == "ok":
-            counts = {MARK[i]: o[1].count(MARK[i]) for i in range(len(levels))}
+            counts = {MARK[i]: o[1].count(MARK[i]) for i in expect}
             v.fail(
                 f"not-limited:{pair}",
-                f"{shape} lengths={[lv['n'] for lv in levels]} limit={limit}: product {prods[j]} at level {j} exceeds the "
+                f"{shape} limit={limit}: product {p_} at node {MARK[nd['id']]} exceeds the "
                 f"limit but the render completed (marker counts {counts})\n   src={src!r:.300} partials={partials!r:.300}",
             )
         elif o[1] != "LoopIterationLimitError":
             v.fail(f"wrong-error:{o[1]}", f"{shape} limit={limit}: raised {o[1]} instead of LoopIterationLimitError")
     else:
         if o[0] == "liquid":
+            last = max(expect)
             v.fail(
-                f"spurious:{o[1]}:{shape.split('>')[-1]}",
-                f"{shape} lengths={[lv['n'] for lv in levels]} limit={limit}: every prefix product {prods} is within the limit "
+                f"spurious:{o[1]}:{_node(tree, last)['k']}",
+                f"{shape} limit={limit}: every product {sorted(expect.values())} is within the limit "
                 f"but the render raised {o[1]}\n   src={src!r:.300}",
             )
         elif o[0] == "ok":
-            for i, pj in enumerate(prods):
+            for i, pj in expect.items():
                 got = o[1].count(MARK[i])
                 if got != pj:
-                    v.fail(f"count:{levels[i]['k']}", f"{shape} lengths={[lv['n'] for lv in levels]}: marker {MARK[i]} x{got}, expected {pj}")
+                    v.fail(f"count:{_node(tree, i)['k']}", f"{shape}: marker {MARK[i]} x{got}, expected {pj}\n   src={src!r:.300}")
                     break
-    full = 1
-    for lv in levels:
-        full *= max(length_of(lv), 1)
-    v.nontrivial = len(levels) >= 2 and limit / 4 <= full <= limit * 4
-    v.labels.append("depth:" + str(len(levels)))
+    full = max([1] + [x for x in expect.values()] + [p_ for _, _, p_ in over])
+    v.nontrivial = maxdepth >= 2 and limit / 4 <= full <= limit * 4
+    v.labels.append("depth:" + str(maxdepth))
+    if len(expect) > maxdepth:
+        v.labels.append("siblings")
     v.labels.append("outcome:" + ("limit-error" if o[0] == "liquid" else o[0]))
-    for a, b in zip(levels, levels[1:]):
-        v.labels.append(f"pair:{a['k']}>{b['k']}")
+    for pr in pairs:
+        v.labels.append("pair:" + pr)
     v.info = src
     return v
+
+
+def _all(nodes):
+    for nd in nodes:
+        yield nd
+        yield from _all(nd.get("body") or [])
+
+
+def _node(tree, i):
+    return next(nd for nd in _all(tree) if nd["id"] == i)
+
+
+def _is_sibling_before(tree, nd) -> bool:
+    def find(nodes):
+        for j, x in enumerate(nodes):
+            if x is nd:
+                return j > 0
+            r = find(x.get("body") or [])
+            if r is not None:
+                return r
+        return None
+
+    return bool(find(tree))
 
 
 # ---------------------------------------------------------------------------
@@ -175,20 +284,114 @@ def deep(draw):
     return {"levels": levels, "limit": lim}
 
 
+def _rand_node(r, depth: int, iso: bool) -> dict:
+    kinds = [k for k in KINDS if not (iso and k in ("include", "include_for"))]
+    k = r.choice(kinds)
+    nd: dict = {"k": k, "n": r.choice([0, 0, 1, 2, 2, 3, 3, 4, 5, 7, 12])}
+    if k in ("for", "tablerow", "tablerow_cols"):
+        nd["coll"] = r.choice(["list", "list", "range", "dict", "str"])
+        if r.random() < 0.2:
+            nd["off"] = r.randint(0, 3)
+        if r.random() < 0.2:
+            nd["lim"] = r.randint(0, 4)
+    nd["body"] = []
+    if depth > 1:
+        for _ in range(r.choice([0, 1, 1, 1, 2, 2, 3])):
+            nd["body"].append(_rand_node(r, depth - 1, iso or k in ISOLATING))
+    return nd
+
+
+@st.composite
+def trees(draw):
+    """Forests: sibling nests after and inside one another, all collection kinds, offset/limit arguments."""
+    r = core.rng(draw)
+    tree = [_rand_node(r, r.choice([2, 3, 3, 4]), False) for _ in range(r.choice([1, 2, 2, 3]))]
+    while sum(1 for _ in _all(tree)) > len(MARK):
+        tree.pop()
+    strseq = r.random() < 0.5
+    prods = []
+
+    def walk(nodes, mult):
+        for nd in nodes:
+            ln = length_of(nd, strseq)
+            prods.append(mult * ln)
+            walk(nd["body"], max(mult * ln, 1))
+
+    walk(tree, 1)
+    top = max(prods + [1])
+    lim = max(1, min(400, int(r.choice(sorted(set(prods)) or [1]) * r.choice([0.5, 0.9, 1, 1, 1.1, 2])))) if r.random() < 0.8 else r.randint(1, top + 5)
+    return {"tree": tree, "limit": lim, "strseq": strseq}
+
+
+def _sequences(ctx: core.Ctx, shard: int, nshards: int, tier: str) -> None:
+    """Every kind of construct (every length 0, 1, 3; alone or holding one more loop) before every nest of two."""
+    idx = 0
+    mains = [ks for ks in itertools.product(KINDS, repeat=2) if valid_shape(ks)]
+    for pk in KINDS:
+        for pn in (0, 1, 3):
+            for inner in (None, "for", "render_for"):
+                for mk in mains:
+                    idx += 1
+                    if idx % nshards != shard:
+                        continue
+                    if tier == "quick" and ((idx // nshards) + ctx.seed) % 3:
+                        continue
+                    pre = {"k": pk, "n": pn, "body": [{"k": inner, "n": 2, "body": []}] if inner else []}
+                    for wrap in (None, "for", "render"):
+                        if wrap == "render" and ("include" in (pk,) + mk or "include_for" in (pk,) + mk):
+                            continue
+                        main = {"k": mk[0], "n": 3, "body": [{"k": mk[1], "n": 5, "body": []}]}
+                        tree = [pre, main] if wrap is None else [{"k": wrap, "n": 2, "body": [pre, main]}]
+                        base = length_of(main) * length_of(main["body"][0]) * (2 if wrap == "for" else 1)
+                        for lim in (base - 1, base):
+                            ctx.run({"tree": tree, "limit": max(lim, 1)}, enumerated=True)
+
+
+def _strings(ctx: core.Ctx, shard: int, nshards: int) -> None:
+    """Loops over strings, with and without string_sequences, alone and around/inside every other kind."""
+    idx = 0
+    for strseq in (False, True):
+        for k in ("for", "tablerow", "tablerow_cols"):
+            for n in (0, 1, 4, 9):
+                for other in [None] + KINDS:
+                    for outer in (True, False):
+                        idx += 1
+                        if idx % nshards != shard:
+                            continue
+                        s_ = {"k": k, "n": n, "coll": "str", "body": []}
+                        if other is None:
+                            tree = [s_]
+                        elif outer:
+                            s_["body"] = [{"k": other, "n": 3, "body": []}]
+                            tree = [s_]
+                        else:
+                            tree = [{"k": other, "n": 3, "body": [s_]}]
+                        ln = (n if strseq else min(n, 1)) * (3 if other in REPEATING else 1)
+                        for lim in sorted({max(1, x) for x in (ln - 1, ln, 3, n)}):
+                            ctx.run({"tree": tree, "limit": lim, "strseq": strseq}, enumerated=True)
+
+
 def campaign(ctx: core.Ctx, tier: str, shard: int, nshards: int) -> None:
     _enumerate(ctx, shard, nshards, tier)
+    _sequences(ctx, shard, nshards, tier)
+    _strings(ctx, shard, nshards)
     core.drive(deep(), ctx.run, n=(3000 if tier == "quick" else 50000) // nshards, seed=core.sub_seed(ctx.seed, shard))
+    core.drive(trees(), ctx.run, n=(4000 if tier == "quick" else 80000) // nshards, seed=core.sub_seed(ctx.seed, shard, 1))
 
 
 def finish_kwargs(ctx: core.Ctx, tier: str) -> dict:
     return {
         "rule": (
             "Nests of depth 1-3 over {for, tablerow, tablerow with cols: 2, include-for, render-for, plain include/render, macro call} x "
-            "lengths {0,1,2,3,5} x 5 limits around the product (exhaustive; quick takes 1/12 of depth 3), plus random "
-            "nests of depth 3-4 with lengths 0-12 and limits 1-200. Each level emits its own marker; a nest whose "
-            "reachable prefix product exceeds the limit must raise LoopIterationLimitError, otherwise the render "
+            "lengths {0,1,2,3,5} x 5 limits around the product (exhaustive; quick takes 1/12 of depth 3); sequences: every kind of "
+            "construct (lengths 0, 1, 3; alone or holding one more loop) in front of every nest of two, at top level and inside "
+            "a for or a render, with the limit at and just below the product (exhaustive; quick takes 1/3); loops over strings "
+            "with and without string_sequences around/inside every kind; random nests of depth 3-4 with lengths 0-12 and "
+            "limits 1-200; random forests (1-3 sibling nests, depth <= 4, up to 3 children per node, list/range/dict/string "
+            "collections, offset/limit arguments). Each node emits its own marker; a forest with a reachable node whose "
+            "product of enclosing lengths exceeds the limit must raise LoopIterationLimitError, otherwise the render "
             "must complete with exactly the product of lengths of every marker. Non-trivial = depth >= 2 and the "
-            "product within [N/4, 4N]."
+            "largest product within [N/4, 4N]."
         ),
         "exhaustive": True,
         "assumptions": ["plain include/render and macro calls count with length 1 but must carry the enclosing product"],
